@@ -14,7 +14,7 @@ Solo == Is("Solo") /\ l' = l + 1 /\ Ev.task \notin DOMAIN solo /\ solo' = solo @
 \* bit-identical to the same call executed alone
 Conc == Is("Conc") /\ l' = l + 1 /\ Ev.task \in DOMAIN solo /\ Ev.hash = solo[Ev.task] /\ UNCHANGED solo
 \* the same fit with internal pools capped at different sizes: same selected features, predictions within 1e-5 relative
-Fit == Is("Fit") /\ l' = l + 1 /\ Ev.sameFeatures /\ Ev.closePredictions /\ UNCHANGED solo
+Fit == Is("Fit") /\ l' = l + 1 /\ Ev.sameFeatures /\ Ev.closePredictions /\ Ev.sameTuning /\ UNCHANGED solo
 Next == Reset \/ Solo \/ Conc \/ Fit
 Spec == Init /\ [][Next]_vars
 Accepted == LET d == TLCGet("stats").diameter IN
